@@ -820,7 +820,7 @@ fn main() {
         c.describe(|| "macro forms".into());
     });
     // random rounds on top
-    let rounds = ctx.scale(0, 4000, 10000) as u64;
+    let rounds = ctx.scale(0, 16000, 40000) as u64;
     // ASan runs about four times slower: a quarter of the random rounds
     let rounds = if ctx.build == "ASAN" { rounds / 4 } else { rounds };
     for r in 0..rounds {
